@@ -281,6 +281,15 @@ def analyze(scen, r, props):
             if t["available"] != t["total"]:
                 V("C11", "idle-token-not-full", f"token {t['name']} (process {t['pid']}): available {t['available']} != total {t['total']} after the restarted run")
 
+    # C12: what a (re-)launched job process reads from its parameter file is what the submission that caused the launch configured
+    # (the virtual job process takes its exit code from the Meta parameter `code` of the real params.json)
+    if scen.get("expect_exits") and not r.get("hung") and not r.get("main_exc"):
+        for x, want in scen["expect_exits"].items():
+            got = [int(e[4]) for e in ev if e[0] == "body_end" and e[1] == f"j{x}"]
+            if got != list(want):
+                V("C12", "task-observes-other-parameters", f"j{x}: the processes launched for the successive submissions were configured with code {list(want)} "
+                  f"(Meta parameter, outside the identifier) but read {got} from params.json")
+
     # C09: at quiescence an idle token shows its full capacity (file-based tokens of every live process)
     if not r.get("hung") and not r.get("main_exc"):
         for t in r.get("tokens_end", []):
